@@ -153,6 +153,22 @@ func (p *Program) verifyFunction(name string, tier string, prop string, sink fun
 			}
 		}
 	}
+	if fc != nil {
+		for _, an := range fc.Uses {
+			ax := p.Ctr.Axioms[an]
+			if ax == nil {
+				x.unsupported("unknown axiom %s", an)
+				continue
+			}
+			env := x.specEnvFor(s, "axiom")
+			if t, err := env.evalBool(ax.Expr); err == nil {
+				s.assume(t)
+				x.assumed["axiom "+an+" (definition of a specification predicate): "+ax.Expr] = true
+			} else {
+				x.unsupported("axiom %s: %v", an, err)
+			}
+		}
+	}
 	var fieldC *FuncContract
 	if fc != nil {
 		if fc.Conforms != "" {
